@@ -12,7 +12,7 @@ def run(rep, tier, seed):
         cfgs += [dict(system="c-inference", N=2, M=2, shapes=sh) for sh in ops.const_shape_configs()[:1]]
     else:
         cfgs = [dict(system="c-inference", N=2, M=M) for M in (1, 2, 3)]
-        cfgs += [dict(system="c-inference", N=3, M=M, level="L2") for M in (2, 3)]
+        cfgs += [dict(system="c-inference", N=3, M=2, level="L2"), dict(system="c-inference", N=2, M=3, level="L2")]
         cfgs += [dict(system="c-inference", N=2, M=2, shapes=sh) for sh in ops.const_shape_configs() + ops.struct_shape_configs()[:3]]
     run_cfgs(rep, cfgs)
     need_both_answers(rep)
